@@ -475,6 +475,16 @@ Definition backends_is_thissystem (backends : list backend) (flag_is_thissystem 
   let it := if existsb (fun b => bk_envvar_forced b && negb (bk_is_thissystem b =? -1)%Z) backends then false else it in
   match env_thissystem with Some v => negb (v =? 0)%Z | None => it end.
 
+(* The IS_THISSYSTEM bit of topology->state over the life of ONE topology handle.
+   hwloc__topology_init sets it; every hwloc_topology_load (successful or not) runs
+   hwloc_backends_is_thissystem, which ASSIGNS the bit both ways
+   ("if (is_thissystem) state |= BIT; else state &= ~BIT"), and hwloc_set_binding_hooks reads it
+   right after; the failure path of load does not touch it. *)
+Record load_cfg := LC { lc_backends : list backend; lc_flag : bool; lc_env : option Z }.
+Definition load_step (bit : bool) (c : load_cfg) : bool :=
+  if backends_is_thissystem (lc_backends c) (lc_flag c) (lc_env c) then bit || true else bit && false.
+Definition thissystem_after (history : list load_cfg) : bool := fold_left load_step history true.
+
 (* ------------------------------------------------------------------ *)
 (* The Linux binding hooks (topology-linux.c, this configuration:        *)
 (* HWLOC_HAVE_CPU_SET_S, !OLD_SCHED_SETAFFINITY, syscall() for the NUMA   *)
